@@ -9,3 +9,75 @@ import "github.com/NethermindEth/juno/consensus/types"
 func VerifF(totalVotingPower types.VotingPower) types.VotingPower { return f(totalVotingPower) }
 
 func VerifQ(totalVotingPower types.VotingPower) types.VotingPower { return q(totalVotingPower) }
+
+// VerifBallots, VerifRound and VerifCounter are deep copies of the counter's internal bookkeeping for the
+// /verif harness (C12): the harness compares them with the Coq model's vote counter after every call of the
+// state machine. Add-only, compiled only with the "verif" build tag; nothing here mutates the counter
+// (in particular no round entry is created, unlike getRoundData).
+type VerifBallots[A types.Addr] struct {
+	Ballots     map[A][2]bool
+	PerVoteType [2]types.VotingPower
+	Total       types.VotingPower
+}
+
+type VerifRound[V types.Hashable[H], H types.Hash, A types.Addr] struct {
+	Proposal  *types.Proposal[V, H, A]
+	Uncounted types.VotingPower
+	PerID     map[H]VerifBallots[A]
+	Nil, All  VerifBallots[A]
+}
+
+type VerifCounter[V types.Hashable[H], H types.Hash, A types.Addr] struct {
+	Height                types.Height
+	Total, Faulty, Quorum types.VotingPower
+	Rounds                map[types.Round]VerifRound[V, H, A]
+	Future                map[types.Height]map[types.Round]VerifRound[V, H, A]
+}
+
+func verifBallots[A types.Addr](b *ballotSet[A]) VerifBallots[A] {
+	out := VerifBallots[A]{Ballots: make(map[A][2]bool, len(b.ballots)), PerVoteType: b.perVoteType, Total: b.total}
+	for a, x := range b.ballots {
+		out.Ballots[a] = x
+	}
+	return out
+}
+
+func verifRounds[V types.Hashable[H], H types.Hash, A types.Addr](m roundMap[V, H, A]) map[types.Round]VerifRound[V, H, A] {
+	out := make(map[types.Round]VerifRound[V, H, A], len(m))
+	for r, d := range m {
+		vr := VerifRound[V, H, A]{
+			Proposal:  d.proposal,
+			Uncounted: d.uncountedProposerPower,
+			PerID:     make(map[H]VerifBallots[A], len(d.perIDVotes)),
+			Nil:       verifBallots(&d.nilVotes),
+			All:       verifBallots(&d.allVotes),
+		}
+		for id, b := range d.perIDVotes {
+			vr.PerID[id] = verifBallots(b)
+		}
+		out[r] = vr
+	}
+	return out
+}
+
+// VerifDump copies the whole counter.
+func (v *VoteCounter[V, H, A]) VerifDump() VerifCounter[V, H, A] {
+	out := VerifCounter[V, H, A]{
+		Height: v.currentHeight, Total: v.totalVotingPower, Faulty: v.faultyVotingPower, Quorum: v.quorumVotingPower,
+		Rounds: verifRounds(v.roundData),
+		Future: make(map[types.Height]map[types.Round]VerifRound[V, H, A], len(v.futureMessages)),
+	}
+	for h, m := range v.futureMessages {
+		out.Future[h] = verifRounds(m)
+	}
+	return out
+}
+
+// VerifCountVote is roundData.countVote of an existing round of the current height (ok=false: no such round).
+func (v *VoteCounter[V, H, A]) VerifCountVote(round types.Round, voteType VoteType, id *H) (types.VotingPower, bool) {
+	d, ok := v.roundData[round]
+	if !ok {
+		return 0, false
+	}
+	return d.countVote(voteType, id), true
+}
